@@ -91,7 +91,8 @@ def run_shard(job: Dict[str, Any]) -> Dict[str, Any]:
   from engine import chx
   shard = job['shard']
   t0 = time.time()
-  res: Dict[str, Any] = dict(name=shard['name'], fn=shard['fn'], params=shard.get('params', {}))
+  res: Dict[str, Any] = dict(name=shard['name'], fn=shard['fn'], params=shard.get('params', {}),
+                             allow_vacuous=bool(shard.get('allow_vacuous')))
   try:
     mod = importlib.import_module(job['module'])
     fn = getattr(mod, shard['fn'])
@@ -275,7 +276,7 @@ def main(argv=None) -> int:
     if r.get('error'):
       errors.append(f'shard {r["name"]} crashed: {r["error"][:800]}')
       continue
-    if r.get('confirmed', 0) + r.get('violated', 0) == 0:
+    if r.get('confirmed', 0) + r.get('violated', 0) == 0 and not r.get('allow_vacuous'):
       errors.append(f'shard {r["name"]} is vacuous: no path reached the end of the harness '
                     f'(paths={r.get("paths")}, ignored={r.get("ignored")}, unknown={r.get("unknown")})')
     for m in r.get('mismatches', []):
